@@ -175,7 +175,12 @@ class ConnSession:
             elif k == "close":
                 c.close()
             elif k == "reconnect":
-                c.connect(self._disc_cb if self.spec.get("disconnect_cb", True) else None, self.spec.get("log_size", 0))
+                # optional second element: the log size asked for this time (default: the scenario's)
+                c.connect(self._disc_cb if self.spec.get("disconnect_cb", True) else None, op[1] if len(op) > 1 else self.spec.get("log_size", 0))
+            elif k == "flood":
+                # many submissions in a row (each a silent no-op on a dead connection, each queued on a live one)
+                for i_ in range(op[1]):
+                    c.put("FLOOD", f"F{i_}", str(i_))
             elif k == "close2":
                 self.conn2.close()
             elif k == "put2":
